@@ -347,7 +347,12 @@ impl<K: KeyT, V: ValT> MapWorld<K, V> {
                 };
                 let n_src = pairs.len();
                 let m = self.slots[si].map.as_mut().unwrap();
-                let out = if from_vec {
+                let out = if from_vec && op.b % 4 == 3 && MapWorld::<K, V>::pod_map(m).is_some() {
+                    // ParallelExtend<(&K, &V)> (Copy pairs only)
+                    let pod: Vec<(crate::elem::PodKey, u32)> = pairs.iter().map(|&(k, v)| (crate::elem::PodKey(k), v)).collect();
+                    let pm = MapWorld::<K, V>::pod_map(m).unwrap();
+                    self.ctx.call(op, || pm.par_extend(pod.par_iter().map(|(k, v)| (k, v))))
+                } else if from_vec {
                     let items: Vec<(K, V)> = pairs.iter().map(|&(k, v)| (K::make(k), V::make(v))).collect();
                     self.ctx.call(op, || m.par_extend(items.into_par_iter()))
                 } else {
@@ -550,10 +555,7 @@ impl<K: KeyT> SetWorld<K> {
                 }
             }
             5..=8 => {
-                if si == ti {
-                    rayon::sim::uninstall();
-                    return Ok(());
-                }
+                // (both operands may be the same set)
                 let a = self.slots[si].set.as_ref().unwrap();
                 let b = self.slots[ti].set.as_ref().unwrap();
                 let out = self.ctx.call(op, || -> (Vec<u32>, Vec<u32>) {
@@ -582,10 +584,7 @@ impl<K: KeyT> SetWorld<K> {
                 }
             }
             9..=12 => {
-                if si == ti {
-                    rayon::sim::uninstall();
-                    return Ok(());
-                }
+                // (both operands may be the same set)
                 let a = self.slots[si].set.as_ref().unwrap();
                 let b = self.slots[ti].set.as_ref().unwrap();
                 let out = self.ctx.call(op, || match which {
